@@ -54,3 +54,59 @@ def unit_listing_count():
     t += 'static void verif_listing_sections(InterpreterEnv* env, Instance& instance, verif_scriptptrs& out_ptrs, bool& out_has_p2sh, size_t& out_tc_lines) {\n' + frag
     t += '    out_ptrs = script_ptrs; out_has_p2sh = has_p2sh; out_tc_lines = tc_desc.size();\n}\n'
     return t + '\n#include "h_listcount.h"\n'
+
+def unit_cfg_release():
+    """the argument buffers of Instance::configure_tx_txin: the loop that copies the remaining witness items (strdup) and the loop
+    that releases them after parse_stack_args (R-PARTIAL: two fragments of the function, joined in one wrapper)"""
+    t = '#include "verif_std.h"\n#include "cfgrel_env.h"\n'
+    push = block('instance.cpp', r'^        for \(size_t i = 0; i < wstack_to_stack; i\+\+\) \{$', trailing=None)
+    rel = between('instance.cpp', r'^    parse_stack_args\(push_del\);$', r'^    // // extract pubkeys from script$', include_end=False)
+    # R-DELETE: `delete p;` -> verif_delete(p) (the deallocation function used is what the contract is about)
+    rel = rewrite(rel, [(r'\bdelete ([^;\n]+);', r'verif_delete(\1);', None)])
+    push = rewrite(push, [(r'\bstrdup\(', 'verif_strdup(', None)]); rel = rewrite(rel, [(r'\bfree\(', 'verif_free(', None)])
+    t += 'static void verif_cfg_buffers(verif_stack& wstack, size_t wstack_to_stack) {\n    verif_cptrvec push_del;\n' + push + rel + '}\n'
+    return t + '\n#include "h_cfgrel.h"\n'
+
+def unit_addr_to_spk():
+    """Value::do_addr_to_spk (value.h): the address -> scriptPubKey transform, with the base58check decoder as an oracle"""
+    from props import units_enc as UE
+    t = '#include "verif_std.h"\n#include "enc_env.h"\n'
+    t += block('script/script.h', r'^enum opcodetype')
+    t += block('script/script.h', r'^class CScriptNum$')
+    t += UE.cscript_members()
+    t += '#include "addrspk_env.h"\n'
+    f = block('value.h', r'^    void do_addr_to_spk\(\) \{', trailing=None)
+    t += 'struct Value {\n    verif_bytes data; int type;\n    void do_base58chkdec() { verif_base58chkdec_oracle(data); }\n' + f + '};\n'
+    t = rewrite(t, R_TYPES + R_LIMITS)
+    t = r_throw(t, THROW_TABLE)
+    return t + '\n#include "h_addrspk.h"\n'
+
+def unit_bech32dec_head():
+    """Value::do_bech32dec (value.h), first part: decoding and the read of the witness version symbol (R-PARTIAL: the bit-regrouping
+    through ConvertBits<> with a lambda that follows is outside the front end)"""
+    t = '#include "verif_std.h"\n#include "bech_env.h"\n'
+    frag = between('value.h', r'^        bech32::DecodeResult result = bech32::Decode\(str\);$', r'^        // data = r\.second;$', include_end=False)
+    frag = rewrite(frag, [(r'auto bech = result\.data;', 'verif_bytes bech = result.data;', 1),      # R-AUTO
+                          (r'return;', 'return -1;', None)])
+    t += 'static int verif_bech32dec_head(const std::string& str) {\n' + frag + '    return version;\n}\n'
+    return t + '\n#include "h_bech.h"\n'
+
+def unit_cfg_p2sh_embedded():
+    """the P2SH-embedded branch of the witness part of Instance::configure_tx_txin (`if (scriptSig.size() > 0) { ... }`): extraction of
+    the witness program from the scriptSig and its check against the HASH160 of the scriptPubKey (R-PARTIAL)"""
+    t = '#include "verif_std.h"\n#include "cfgp2sh_env.h"\n'
+    blk = block('instance.cpp', r'^        if \(scriptSig\.size\(\) > 0\) \{$', trailing=None)
+    t += ('static bool verif_cfg_p2sh_embedded(CScript& scriptSig, CScript& scriptPubKey, CScript& validation, Value& hashsrc, std::string& source, opcodetype& opcode, verif_bytes& pushval) {\n'
+          + blk + '    return true;\n}\n')
+    t = rewrite(t, R_TYPES)
+    return t + '\n#include "h_cfgp2sh.h"\n'
+
+def unit_verify_sig_head():
+    """Value::verify_sig (value.cpp), argument checks up to the construction of the sighash (R-PARTIAL: the signature verification that
+    follows is libsecp256k1)"""
+    t = '#include "verif_std.h"\n#include "vsig_env.h"\n'
+    t += between('value.cpp', r'^#define abort\(msg\.\.\.\) ', r'^', include_end=False)
+    frag = between('value.cpp', r'^void Value::verify_sig\(bool compact\) \{$', r'^    if \(args\[1\]\.size\(\) == 32\) \{$', include_end=False)
+    frag = rewrite(frag, [(r'void Value::verify_sig\(bool compact\) \{', 'void Value::verify_sig_head(bool compact) {', 1)])
+    t += rewrite(frag, R_TYPES) + '    g_vsig_head_done = 1;\n}\n'
+    return t + '\n#include "h_vsig.h"\n'
